@@ -214,3 +214,11 @@ func zzH_C02_params_lookup_prune(t *zzT) {
 	}
 	t.Reach("end")
 }
+
+// C06 premise: the bound "an aggregate commit never reaches beyond the block preceding the NEXT
+// validator-set change" rests on NextHeightBFTParameters returning the smallest stored parameter
+// height above the argument (the C06 harnesses of package consensus replace it by a stub with exactly
+// that contract). Registered under C06 as well: same obligation as C02.c, three stored heights.
+//
+//zz:opt loop=24
+func zzH_C06_next_params_height(t *zzT) { zzH_C02_params_lookup_prune(t) }
